@@ -47,6 +47,8 @@ class Clause:
             return True
         if self.when.startswith('raise:') and outcome.kind == 'raise':
             return outcome.value.cls == self.when[6:]
+        if self.when.startswith('yield:') and outcome.kind == 'yield':
+            return str(getattr(outcome, 'yield_index', 0)) == self.when[6:]
         return False
 
 
@@ -119,17 +121,32 @@ def check_valid(pc, formula, want_model=True, timeout_ms=None, second_backend=Tr
             if k in (z3.Z3_OP_SEQ_EMPTY, z3.Z3_OP_SEQ_UNIT, z3.Z3_OP_SEQ_CONCAT):
                 continue
             try:
-                val = m.eval(arg, model_completion=True)
-            except z3.Z3Exception:
+                n = m.eval(z3.Length(arg), model_completion=True).as_long()
+            except (z3.Z3Exception, AttributeError):
                 continue
-            key = (app.get_id(), val.get_id())
-            if key in seen_lemmas:
+            if n > 6:
                 continue
-            seen_lemmas.add(key)
+            key = (arg.get_id(), n)
+            if key not in seen_lemmas:
+                seen_lemmas.add(key)
+                if n == 0:
+                    conc_arg = z3.Empty(arg.sort())
+                else:
+                    parts = [z3.Unit(arg[i]) for i in range(n)]
+                    conc_arg = parts[0] if n == 1 else z3.Concat(*parts)
+                # valid fact about sequences: a sequence of length n is the concatenation of its n units
+                lemmas.append(z3.Implies(z3.Length(arg) == n, arg == conc_arg))
+            key2 = (app.get_id(), n)
+            if key2 in seen_lemmas:
+                continue
+            seen_lemmas.add(key2)
+            if n == 0:
+                conc_arg = z3.Empty(arg.sort())
+            else:
+                parts = [z3.Unit(arg[i]) for i in range(n)]
+                conc_arg = parts[0] if n == 1 else z3.Concat(*parts)
             extra = [app.arg(i) for i in range(sf.nextra)]
-            conc = sf.f(*(extra + [val]))
-            lem = [z3.Implies(arg == val, app == conc)]
-            lemmas.extend(lem)
+            lemmas.append(z3.Implies(z3.Length(arg) == n, app == sf.f(*(extra + [conc_arg]))))
         if not lemmas:
             break
         more = sym.instantiate_axioms(lemmas)
@@ -139,6 +156,10 @@ def check_valid(pc, formula, want_model=True, timeout_ms=None, second_backend=Tr
         ax = ax + lemmas + more
         rounds += 1
         r = s.check()
+    if r == z3.unsat:
+        return 'proved', 'z3', time.time() - t0, None, s
+    if r == z3.sat:
+        return 'failed', 'z3', time.time() - t0, (s.model() if want_model else None), s
     if r == z3.unknown and last_model is not None:
         # refinement made the query too hard: report the last (possibly axiom-violating) model; the replay decides
         return 'failed', 'z3', time.time() - t0, (last_model if want_model else None), s
@@ -287,7 +308,8 @@ class Contract:
                     r.detail = (r.detail + '\n' + self._model_text(model))[:4000]
                 results.append(r)
         info = {'paths': n_paths, 'seconds': time.time() - t0, 'branch_checks': I.n_branch_checks,
-                'outcomes': [o.kind + (':' + o.value.cls if o.kind == 'raise' else '') for o in outcomes],
+                'outcomes': [o.kind + (':' + o.value.cls if o.kind == 'raise' else '') +
+                             (':%d' % getattr(o, 'yield_index', 0) if o.kind == 'yield' else '') for o in outcomes],
                 'dropped': sorted(I.dropped), 'cover': self.cover(outcomes)}
         self.outcomes = outcomes
         return results, info
